@@ -37,6 +37,8 @@ size_t    g_wk_sched_all; /* of which: wake-all */
 size_t    g_wk_drain;  /* nni_cv_wake on tq_wait_cv (drain waiters) */
 bool      g_cv_waited; /* nni_cv_wait was called */
 bool      g_expire_unit; /* constant of the harness: the unit runs nni_aio_expire_loop as a thread */
+bool      g_thread_entered; /* the thread body of the unit has been entered */
+bool      g_sleep0[2];   /* expire units: a_sleep at entry */
 bool      g_worker_unit; /* constant of the harness: the unit runs nni_taskq_thread as a thread */
 size_t    g_cv_fini;   /* nni_cv_fini calls */
 size_t    g_mtx_fini;  /* nni_mtx_fini calls */
